@@ -27,7 +27,7 @@ def canary_unsettled(traces):
 
 def run(tier):
     return run_queue_prop(
-        'C01', tier, ['a', 'a2'] if tier == 'quick' else ['a', 'a2', 'b', 'c0'], [canary_dropped, canary_unsettled],
+        'C01', tier, ['a', 'a2', 'live1'] if tier == 'quick' else ['a', 'a2', 'b', 'c0', 'live1', 'live2'], [canary_dropped, canary_unsettled],
         rule='relay outcome histories (None/Reply, per-recipient mapping and sequence, raised Transient/Permanent/other) '
              'over up to three rounds with retry exhaustion, on the dict, pickling-dict, disk, redis-double and '
              'cloud-double backends (DFS over outcome choices); schedules of concurrently queued messages over a '
